@@ -10,7 +10,7 @@ import re
 from .absint import (Agg, Int, Ref, Opaque, FnVal, SliceVal, K, none, some, UNIT, OPTION, RESULT, ORDERING, CONTROLFLOW,
                      PanicExc, Stop, Infeasible, CALL_PUSHED, ALL, NEG, ZERO, POS, NONNEG, NONPOS, NONZERO, EnumSym)
 from .db import INT_RANGES
-from .poly import padd, pconst, pmul, pneg, pfreeze, pis_const, patom
+from .poly import padd, pconst, pmul, pneg, pfreeze, pis_const, patom, plinear_single, pthaw
 
 INT = r'(i8|u8|i16|u16|i32|u32|i64|u64|i128|u128|isize|usize)'
 _table = []
@@ -211,8 +211,30 @@ def m_checked(I, st, fr, args, path, gargs, t):
 def m_wrapping(I, st, fr, args, path, gargs, t):
     m = re.match(r'core::num::<impl ' + INT + r'>::wrapping_(add|sub|mul)', path)
     ty, op = m.group(1), m.group(2).capitalize()
-    p = I.arith_poly(st, op, args[0], args[1])
-    return I.wrap(st, ty, p, 'wrapping')
+    rlo, rhi = INT_RANGES[ty]
+    modulus = rhi - rlo + 1
+
+    def rep(x):
+        # a previous wrapping result stands for its unreduced term (congruent modulo 2^w)
+        ls = plinear_single(st.norm(x.p))
+        if ls is not None and ls[1] == 1 and ls[2] == 0:
+            mr = st.modrep.get(ls[0])
+            if mr is not None and mr[1] == modulus:
+                return Int(x.ty, None, None, st.norm(pthaw(mr[0])))
+        return x
+    a, b = rep(args[0]), rep(args[1])
+    p = I.arith_poly(st, op, a, b)
+    if st.in_range(p, rlo, rhi) is True:
+        return I.mk(st, ty, p)
+    if st.tactics and rlo == 0:
+        plo, phi = st.range_of(p)
+        if plo is not None and plo >= 0 and st.relational_upper(p, rhi):
+            return I.mk(st, ty, p, 0, rhi)
+    r = st.fresh(ty, tag='wrapping')
+    ls = plinear_single(r.p)
+    if ls is not None:
+        st._jset('modrep', ls[0], (pfreeze(st.norm(p)), modulus))
+    return r
 
 
 @model(r'core::num::<impl ' + INT + r'>::saturating_sub')
@@ -686,15 +708,21 @@ def m_str_as_bytes(I, st, fr, args, path, gargs, t):
     return SliceVal(s.len, 'bytes')
 
 
+def _len(I, st, v):
+    v = deref(I, st, v)
+    if isinstance(v, Agg) and v.kind == 'array':
+        return K(len(v.fields), 'usize')          # an array unsized to a slice keeps its element list
+    return _slice(I, st, v).len
+
+
 @model(r'core::slice::<impl \[T\]>::len|core::str::<impl str>::len')
 def m_slice_len(I, st, fr, args, path, gargs, t):
-    return _slice(I, st, args[0]).len
+    return _len(I, st, args[0])
 
 
 @model(r'core::slice::<impl \[T\]>::is_empty|core::str::<impl str>::is_empty')
 def m_slice_is_empty(I, st, fr, args, path, gargs, t):
-    ln = _slice(I, st, args[0]).len
-    return I.compare(st, 'Eq', ln, K(0, 'usize'))
+    return I.compare(st, 'Eq', _len(I, st, args[0]), K(0, 'usize'))
 
 
 def _fresh_byte_ref(I, st):
